@@ -317,7 +317,16 @@ class C05Monitor(X.Monitor):
                 return
         ctx.probe("perfect_tracker_scene")
         for ts in score.tracking_scores:
+            mode_name = ts.matching_mode.value
+            attr = OS._MODE_ATTR[mode_name]
             for c in ts.clears:
+                thr = c.matching_threshold_list[0]
+                # the geometry scores are not ours to judge (C06): if some coincident pair does not beat this
+                # threshold on its own score (e.g. a polygon-intersection glitch giving IoU 0), nothing is claimed
+                if any(getattr(r, attr).value is None or not _better(mode_name, getattr(r, attr).value, thr) or ref.near(getattr(r, attr).value, thr)
+                       for fr in frames for r in fr.object_results):
+                    ctx.skip("c05_pair_not_tp_on_own_score")
+                    continue
                 if c.num_ground_truth > 0 and (abs(c.mota - 1.0) > 1e-9 or c.id_switch != 0):
                     ctx.violate("C05", "perfect_tracker", "perfect tracking scores MOTA %r with %d switches (%s)" % (c.mota, c.id_switch, ts.matching_mode.value),
                                 {"gt": c.num_ground_truth, "tp": c.tp, "fp": c.fp}, index)
@@ -497,6 +506,21 @@ def _step_margin(ctx, lane, st):
     return m
 
 
+def _iou_glitch(st):
+    """Coincident estimate / ground-truth boxes whose BEV IoU is nowhere near 1: the polygon intersection of the
+    geometry backend collapses for footprints that differ in the last bits (C06 territory, not a frame effect)."""
+    if st.result is None:
+        return False
+    for r in st.result.object_results:
+        g, e = r.ground_truth_object, r.estimated_object
+        if g is None or r.center_distance.value is None or r.iou_2d.value is None:
+            continue
+        if r.center_distance.value < 1e-6 and tuple(g.state.size) == tuple(e.state.size) \
+                and rm.q_angle_between(V.quat_of(g), V.quat_of(e)) < 1e-6 and r.iou_2d.value < 0.99:
+            return True
+    return False
+
+
 def check_frame_twin(ctx, lane):
     """C07: the same plan evaluated with everything expressed in the other coordinate frame."""
     other = "map" if lane.frame == "base_link" else "base_link"
@@ -535,6 +559,9 @@ def check_frame_twin(ctx, lane):
             if d:
                 break
         if d:
+            if _iou_glitch(a) or _iou_glitch(b):
+                ctx.skip("c07_iou_glitch")
+                return
             margin = min(_step_margin(ctx, lane, a), _step_margin(ctx, twin, b))
             if margin < max(a.eps, b.eps):
                 ctx.skip("c07_indeterminate")
@@ -665,8 +692,20 @@ def _final_switches(lane):
         return None
     out = []
     for ts in lane.scene_scores[-1]["score"].tracking_scores:
-        out.append(([c.id_switch for c in ts.clears], ts._sum_clear()[2], [l.value for l in ts.target_labels]))
+        out.append(([c.id_switch for c in ts.clears], ts._sum_clear()[2], [l.value for l in ts.target_labels],
+                    ts.matching_mode.value, [c.matching_threshold_list[0] for c in ts.clears]))
     return out
+
+
+def _tp_on_own_score(st, gt_uuid, mode_name, thr):
+    """Is the result paired with ground truth `gt_uuid` in this step a TP on its own score (read from the implementation)?"""
+    attr = OS._MODE_ATTR[mode_name]
+    for r in st.result.object_results:
+        g = r.ground_truth_object
+        if g is not None and g.uuid == gt_uuid:
+            v = getattr(r, attr).value
+            return v is not None and _better(mode_name, v, thr) and not ref.near(v, thr)
+    return False
 
 
 def check_identity_fault_twins(ctx, lane):
@@ -722,7 +761,13 @@ def check_identity_fault_twins(ctx, lane):
         got = _final_switches(twin)
         ctx.probe("c05_new_id_twins")
         if got is not None:
-            for (b_cl, b_tot, tl), (g_cl, g_tot, _) in zip(base, got):
+            for (b_cl, b_tot, tl, mode_name, thrs), (g_cl, g_tot, _, _, _) in zip(base, got):
+                if lab not in tl:
+                    continue
+                thr = thrs[tl.index(lab)]
+                if not all(_tp_on_own_score(st, u, mode_name, thr) for st in steps):
+                    ctx.skip("c05_pair_not_tp_on_own_score")  # "correctly tracked" does not hold under this score
+                    continue
                 want = [x + (1 if l == lab else 0) for x, l in zip(b_cl, tl)]
                 if g_cl != want or g_tot != b_tot + 1:
                     ctx.violate("C05", "new_id_costs_one", "a new id on a continuing, correctly tracked target costs %d switch(es), not 1" % (g_tot - b_tot),
@@ -752,7 +797,13 @@ def check_identity_fault_twins(ctx, lane):
         got = _final_switches(twin)
         ctx.probe("c05_swap_twins")
         if got is not None:
-            for (b_cl, b_tot, tl), (g_cl, g_tot, _) in zip(base, got):
+            for (b_cl, b_tot, tl, mode_name, thrs), (g_cl, g_tot, _, _, _) in zip(base, got):
+                if l1 not in tl or l2 not in tl:
+                    continue
+                if not all(_tp_on_own_score(st, u1, mode_name, thrs[tl.index(l1)]) and _tp_on_own_score(st, u2, mode_name, thrs[tl.index(l2)])
+                           for st in steps):
+                    ctx.skip("c05_pair_not_tp_on_own_score")
+                    continue
                 want = [x + (1 if l == l1 else 0) + (1 if l == l2 else 0) for x, l in zip(b_cl, tl)]
                 if g_cl != want or g_tot != b_tot + 2:
                     ctx.violate("C05", "swap_costs_two", "exchanging two correctly tracked identities costs %d switch(es), not 2" % (g_tot - b_tot),
